@@ -60,6 +60,32 @@ func (e *Env) normFunc(pkg *packages.Package, fd *ast.FuncDecl, opt forkOpts, up
 	if fl == nil {
 		return "", fmt.Errorf("normal form is not a function literal")
 	}
+	// canonical form (forknorm.go), then a fresh parse so that the locals introduced or moved by
+	// the rewrites are resolved again
+	if !opt.verbatim {
+		var rw func(string) string
+		if upstream {
+			rw = opt.rewrite
+		}
+		newNormEnv(pkg, fd.Name.Name, rw).canonicalize(fl)
+		buf.Reset()
+		if err := printer.Fprint(&buf, token.NewFileSet(), fl); err != nil {
+			return "", err
+		}
+		pf2, err := parser.ParseFile(token.NewFileSet(), "norm2.go", "package p\nvar _ = "+buf.String(), 0)
+		if err != nil {
+			return "", fmt.Errorf("re-parse of the canonical form failed: %v\n%s", err, buf.String())
+		}
+		fl = nil
+		if gd, ok := pf2.Decls[0].(*ast.GenDecl); ok && len(gd.Specs) == 1 {
+			if vs, ok := gd.Specs[0].(*ast.ValueSpec); ok && len(vs.Values) == 1 {
+				fl, _ = vs.Values[0].(*ast.FuncLit)
+			}
+		}
+		if fl == nil {
+			return "", fmt.Errorf("canonical form is not a function literal")
+		}
+	}
 	if opt.elideSwitch {
 		for _, st := range fl.Body.List {
 			if ts, ok := st.(*ast.TypeSwitchStmt); ok {
@@ -86,32 +112,6 @@ func (e *Env) normFunc(pkg *packages.Package, fd *ast.FuncDecl, opt forkOpts, up
 				}
 				ts.Body.List = keep
 			}
-		}
-	}
-	// canonical form (forknorm.go), then a fresh parse so that the locals introduced or moved by
-	// the rewrites are resolved again
-	if !opt.verbatim {
-		var rw func(string) string
-		if upstream {
-			rw = opt.rewrite
-		}
-		newNormEnv(pkg, fd.Name.Name, rw).canonicalize(fl)
-		buf.Reset()
-		if err := printer.Fprint(&buf, token.NewFileSet(), fl); err != nil {
-			return "", err
-		}
-		pf2, err := parser.ParseFile(token.NewFileSet(), "norm2.go", "package p\nvar _ = "+buf.String(), 0)
-		if err != nil {
-			return "", fmt.Errorf("re-parse of the canonical form failed: %v\n%s", err, buf.String())
-		}
-		fl = nil
-		if gd, ok := pf2.Decls[0].(*ast.GenDecl); ok && len(gd.Specs) == 1 {
-			if vs, ok := gd.Specs[0].(*ast.ValueSpec); ok && len(vs.Values) == 1 {
-				fl, _ = vs.Values[0].(*ast.FuncLit)
-			}
-		}
-		if fl == nil {
-			return "", fmt.Errorf("canonical form is not a function literal")
 		}
 	}
 	// alpha-rename locals in order of declaration
